@@ -62,9 +62,10 @@ def _case(draw):
     for _ in range(n):
         kind = draw(st.sampled_from(["txt", "txt", "bin", "html", "dir", "mbox"]))
         b = draw(st.one_of(gen.tame_base, gen.names(toplevel=True, full=True)))
-        name = {"txt": b + draw(st.sampled_from([".txt", "", ".c", ".txt", "", ".3d", ".ask", ".keywords", ".abstract"])), "bin": b + draw(st.sampled_from([".gif", ".pdf", ".tar.gz"])),
+        # (a file name may end in a full stop: its sidecars are then called 'name..abstract' etc.)
+        name = {"txt": b + draw(st.sampled_from([".txt", "", ".c", ".txt", "", ".3d", ".ask", ".keywords", ".abstract", ".", "."])), "bin": b + draw(st.sampled_from([".gif", ".pdf", ".tar.gz"])),
                 "html": b + ".html", "dir": b, "mbox": b + ".mbox"}[kind]
-        if name in used or not gen.servable_name(name, True, True):
+        if name in used or not gen.servable_name(name[:-1] if kind == "txt" and name.endswith(".") and len(name) > 1 else name, True, True):
             continue
         # an item must not double as another item's sidecar (nor the other way round)
         if any(name.endswith(e) and name[:-len(e)] in used for e, _ in EA) or any(name + e in used for e, _ in EA):
@@ -284,7 +285,8 @@ def check_case(case, ctx):
         rd = drive.serve(cfg, clients.encode("gdollar", world.b(dsel)))
         pd = clients.parse_response("gdollar", rd.response)
         ctx.label("inzip" if inzip else "real", "extstrip:" + case["extstrip"])
-        if rd.escaped is not None or not pd.ok or rd.exception_classes():
+        # (a sidecar called 'name..keywords' is itself an entry the walk cannot serve: it is skipped and logged as FileNotFound)
+        if rd.escaped is not None or not pd.ok or [c for c in rd.exception_classes() if c != "FileNotFound"]:
             return [Fail("dollar-failed", "$ listing of %r failed: %r %r" % (dsel, rd.response[:100], rd.logs[-1:]))]
         plain = [l for l in rp.response.split(b"\r\n") if l]
         items = _blocks(pd.body)
